@@ -79,6 +79,20 @@ class MM(collections.abc.MutableMapping):
         return len(self.d)
 
 
+class ExpC(MM):
+    """A retaining mapping as far as the wrapper's documented use goes (lookup by subscription, store by
+    assignment) - but an entry that is merely *tested for* (`key in cache`) expires right after the test, as an
+    entry of a TTL cache can between any two operations."""
+    def __contains__(self, k):
+        r = k in self.d
+        if r:
+            del self.d[k]
+        return r
+
+    def values(self):
+        return list(self.d.values())
+
+
 class Tiny(MM):
     """A caller-supplied mapping that keeps only the most recently stored key (evicts on insert)."""
     def __setitem__(self, k, v):
@@ -144,6 +158,8 @@ def execute(sc):
         wrapped = A.threadsafe_async_cache(user_func)
     elif mp == 'mm':
         wrapped = A.threadsafe_async_cache(user_func, cache=MM())
+    elif mp == 'expc':
+        wrapped = A.threadsafe_async_cache(user_func, cache=ExpC())
     elif mp == 'tiny':
         wrapped = A.threadsafe_async_cache(user_func, cache=Tiny())
     elif mp == 'lru':
